@@ -450,10 +450,10 @@ class Env:
             if k in seen:
                 continue
             seen.add(k)
-            self._decide('%s:div%d' % (label, len(seen)), d != 0, False)
+            self._decide('%s:div%d' % (label, len(seen)), d != 0, False, light=True)
         CTX.divisors.clear()
 
-    def _decide(self, label, goal, trivial=False):
+    def _decide(self, label, goal, trivial=False, light=False):
         import z3
         from . import core
         from .core import CTX
@@ -470,9 +470,9 @@ class Env:
             return 'skipped'
         neg = z3.Not(goal)
         ax = self._axioms()
-        r, m = core.decide(neg, extra=ax, timeout_ms=self.timeout_ms)
+        r, m = core.decide(neg, extra=ax, timeout_ms=min(self.timeout_ms, 10000) if light else self.timeout_ms)
         kind = 'obligation'
-        if r == 'unknown':
+        if r == 'unknown' and not light:
             # candidate from the linear abstraction (monomials as atoms): cheap model, replay decides
             r3, m3 = core.solve_linear(neg, extra=(), timeout_ms=3000, want_model=True)
             if r3 == 'sat':
